@@ -830,8 +830,62 @@ def _bookkeeping(ctx):
            'the server state becomes frozen')
 
 
+def _blacklist_match(ctx):
+    """C08.3: the verdict on a name looks at every entry of the list: an
+    iteration of the loop over the blacklist ends without a verdict only
+    after the entry was matched against the name as a pattern (fnmatch) and
+    did not match.  A prefilter on part of the entry ("entries of another
+    proid") passes over entries whose proid part is itself a pattern."""
+    loader = ctx.index.get_class(K.LOADER, 'Loader')
+    cands = [f for f in loader.live_methods() if any(
+        K.callee_text(c).endswith('fnmatch.fnmatch') or
+        K.callee_text(c).endswith('fnmatch.fnmatchcase') or
+        K.is_meth(c, 'match') for c in K.calls(f.node)) and any(
+            isinstance(n, ast.Attribute) and n.attr == 'apps_blacklist'
+            for n in K.walk_no_nested(f.node))]
+    func = K.one(cands, 'Loader routine matching a name against '
+                        'apps_blacklist')
+    graph = ctx.cfg(func)
+    loops = [n for n in graph.nodes if n.kind == 'for' and
+             'apps_blacklist' in K.rtxt(func, n.ast.iter)]
+    ctx.require(loops, 'loop over the blacklist in %s' % func.qualname,
+                rule='C08.3', func=func)
+    for loop in loops:
+        var = sorted(N.for_targets(loop))[-1]
+        matches = [n for n in K.loop_body_nodes(loop) if any(
+            (K.callee_text(c).endswith('fnmatch.fnmatch') or
+             K.callee_text(c).endswith('fnmatch.fnmatchcase')) and
+            len(c.args) == 2 and var in N.mentions(c.args[1])
+            for c in C.node_calls(n))]
+        starts = [e.dst for e in loop.succ if e.kind == 'iter']
+        path = None
+        for start in starts:
+            if start in matches:
+                continue
+            path = K.find_path(start, [loop], cut_node=lambda n: n in matches,
+                               follow_exc=False)
+            if path:
+                break
+        ctx.ob('C08.3', func, matches[0] if matches else loop,
+               bool(matches) and path is None,
+               'every entry of the blacklist is matched against the name as '
+               'a pattern before the next one is looked at (no prefilter)',
+               path=K.describe(path) if path else None,
+               construct='every blacklist entry matched')
+        # the loop is not left early without a positive verdict
+        early = [n for n in K.loop_body_nodes(loop)
+                 if (n.kind == 'stmt' and isinstance(n.ast, ast.Break)) or
+                 (n.kind == 'return' and not (
+                     isinstance(n.ast.value, ast.Constant) and
+                     n.ast.value.value is True))]
+        ctx.ob('C08.3', func, early[0] if early else loop, not early,
+               'the walk over the blacklist is left early only with the '
+               'verdict "blacklisted"', construct='blacklist walk complete')
+
+
 def check(ctx):
     cell, nz = _inactive(ctx)
+    _blacklist_match(ctx)
     _placement_guards(ctx, cell, nz)
     _ordering(ctx, cell)
     _presence(ctx)
@@ -849,6 +903,13 @@ def check(ctx):
     loader = ctx.index.get_class(K.LOADER, 'Loader')
     c11._load_order(ctx, loader, rule='C08.3', only=[
         ('load_apps_blacklist', 'load_apps')])
+    # shared with C11.2: at a reload the placement recorded on a server that
+    # is down (no presence) goes through the normal leaf placement - which
+    # does not look at the state - and is given up without that attempt only
+    # for a schedule-once instance: an instance on a down server keeps its
+    # placement for its data retention time across a master restart
+    with ctx.shared({'C11': 'C08.2'}):
+        c11._verbatim(ctx, loader)
 
 
 _S = 'lib/python/treadmill/scheduler/__init__.py'
